@@ -5,6 +5,7 @@ import warnings
 import numpy as np
 
 from harness.proj import to_rat, rat_close, relayout, try_layout
+from checks import binding
 from harness.core import Machinery
 
 LEVEL = "model_checking"
@@ -96,7 +97,7 @@ def replay_det(ctx, metrics, c, n):
         # the scores do not depend on how the caller stores the series (list, Series, float32, integer, strided)
         for f, key in ((metrics.nse, "nse"), (metrics.bias, "bias_std"), (metrics.kge, None)):
             try:
-                v, _used = try_layout(lambda a, b: float(call(f, a, b)), (obs, sim), (relayout(obs, n), relayout(sim, n // 7)))
+                v, _used = try_layout(lambda a, b: float(call(f, a, b)), (obs, sim), (relayout(obs, n, containers=True), relayout(sim, n // 7, containers=True)))
             except Exception as ex:
                 ctx.violation("scores:container:exception", repr(ex), case)
                 return
@@ -107,7 +108,7 @@ def replay_det(ctx, metrics, c, n):
                               dict(case, layout=n % 7))
                 return
         # invariances (exact maps): NSE under a common affine map, bias / KGE under a common positive scaling
-        a, b = [(2.0, 3.0), (0.5, -7.0), (-4.0, 1.0)][n % 3]
+        a, b = [(2.0, 3.0), (0.5, -7.0), (-4.0, 1.0), (1.0, 2.0 ** 24), (-0.25, -2.0 ** 27), (2.0 ** 30, 2.0 ** 52)][n % 6]
         v = float(call(metrics.nse, a * obs + b, a * sim + b))
         if not isnanr(e["nse"]) and not close(v, q(e["nse"])):
             ctx.violation("nse:affine-invariance", "nse(a*o+b, a*s+b)=%r expected %s" % (v, e["nse"]), dict(case, a=a, b=b))
@@ -133,6 +134,22 @@ def replay_conf(ctx, metrics, c, n):
         return
     if got != c["table"]:
         ctx.violation("confusion_matrix:counts", "table %s expected %s" % (got, c["table"]), case)
+        return
+    # the same pairs in other containers: pairing is by position whatever the container (and whatever a pandas index says)
+    import pandas as pd
+    m = len(obs)
+    variants = {0: (tuple(obs), list(sim)),
+                1: (pd.Series(obs, index=pd.date_range("2001-01-01", periods=m)), pd.Series(sim, index=pd.date_range("2001-01-02", periods=m))),
+                2: (pd.Series(obs, index=np.arange(m)[::-1]), np.array(sim, dtype=np.int8)),
+                3: (np.array(obs, dtype=np.float32), pd.Series(sim, index=["k%d" % ((7 * i) % max(m, 1)) for i in range(m)]))}
+    o2, s2 = variants[n % 4]
+    try:
+        got2 = np.array(metrics.confusion_matrix(o2, s2, ncat=ncat), dtype=float).astype(int).tolist()
+    except Exception as e:
+        ctx.violation("confusion_matrix:container:exception", repr(e), dict(case, container=n % 4))
+        return
+    if got2 != c["table"]:
+        ctx.violation("confusion_matrix:container-type", "table %s for the same pairs in other containers, expected %s" % (got2, c["table"]), dict(case, container=n % 4))
         return
     present = sorted(set(obs) | set(sim))
     if present == list(range(len(present))) and len(present) >= 2:
@@ -178,7 +195,7 @@ def spec_to_code(ctx, metrics):
     suffix = "" if ctx.tier == "quick" else "_thorough"
     total = 0
     for part, fn in (("det", replay_det), ("conf", replay_conf), ("bin", None)):
-        res = ctx.tlc("ScoresDump", "MC_Scores_%s%s.cfg" % (part, suffix), timeout=3000, heap="8g")
+        res = ctx.tlc("ScoresDump", "MC_Scores_%s%s.cfg" % (part, suffix), workers=16, timeout=3000, heap="8g")
         if res.violated:
             raise Machinery("Scores.tla (%s) violates its contract: %s" % (part, res.violated))
         n = 0
@@ -262,10 +279,11 @@ def code_to_spec(ctx, metrics, ncases):
     with open(path, "w") as f:
         for r in recs:
             f.write(json.dumps(r) + "\n")
-    res = ctx.tlc("ScoresTrace", "MC_ScoresTrace.cfg", workers=1, timeout=3000, heap="6g", stack="256m",
+    res = ctx.tlc("ScoresTrace", "MC_ScoresTrace.cfg", timeout=3000, heap="6g", stack="256m",
                   env={"TRACE_FILE": str(path)})
     if not res.tuples("VALIDATED"):
         raise Machinery("ScoresTrace did not complete:\n" + res.out[-2500:])
+    ctx.binding_demo("ScoresTrace", "MC_ScoresTrace.cfg", path, binding.scores, timeout=3000, heap="6g", stack="256m")
     for line in res.tuples("REJECT"):
         parts = line.strip("<>").split(",")
         r = recs[int(parts[1]) - 1]
